@@ -138,7 +138,9 @@ func shortClass(c string) string {
 }
 
 // Equal compares two snapshots of the same chain.
-func (t TokenSnap) Equal(o TokenSnap) bool { return t.String() == o.String() && strings.Join(t.NFTDenom, ",") == strings.Join(o.NFTDenom, ",") && strings.Join(t.MTDenom, ",") == strings.Join(o.MTDenom, ",") }
+func (t TokenSnap) Equal(o TokenSnap) bool {
+	return t.String() == o.String() && strings.Join(t.NFTDenom, ",") == strings.Join(o.NFTDenom, ",") && strings.Join(t.MTDenom, ",") == strings.Join(o.MTDenom, ",")
+}
 
 // EqualHoldings ignores the sets of (possibly empty) denoms.
 func (t TokenSnap) EqualHoldings(o TokenSnap) bool { return t.String() == o.String() }
@@ -226,7 +228,13 @@ func (s *Sim) opNFT(op Op) *Violation {
 		}
 		return s.record(st)
 	case "nftmint":
-		cls := s.NFTClasses[c.Name]
+		cls := append([]string{}, s.NFTClasses[c.Name]...)
+		// voucher classes present on the chain are candidates too: only the transfer module may mint into them
+		for _, d := range SnapTokens(c).NFTDenom {
+			if strings.HasPrefix(d, "tibc-") {
+				cls = append(cls, d)
+			}
+		}
 		if len(cls) == 0 {
 			return nil
 		}
@@ -344,7 +352,12 @@ func (s *Sim) opMT(op Op) *Violation {
 		return s.record(st)
 	case "mtmint":
 		// A=chain, B=class idx, C: 0 => new id, else existing id idx, D=amount idx, U recipient
-		cls := s.MTClasses[c.Name]
+		cls := append([]string{}, s.MTClasses[c.Name]...)
+		for _, d := range SnapTokens(c).MTDenom {
+			if strings.HasPrefix(d, "tibc-") {
+				cls = append(cls, d)
+			}
+		}
 		if len(cls) == 0 {
 			return nil
 		}
@@ -356,7 +369,8 @@ func (s *Sim) opMT(op Op) *Violation {
 		}
 		owner := s.accByAddr(c, d.Owner)
 		if owner == nil {
-			return nil
+			// a voucher class (owned by the transfer module): a user tries
+			owner = c.Accounts[mod(int(op.U/7), world.NumUsers)]
 		}
 		id := ""
 		ids := s.MTIDs[c.Name+"/"+class]
@@ -499,7 +513,6 @@ func contains(xs []string, x string) bool {
 
 var _ = sdk.AccAddress{}
 
-
 // SendNFT submits MsgNftTransfer with explicit arguments.
 func (s *Sim) SendNFT(c *world.Chain, owner *world.Account, class, id, receiver, dst, relay string) *Violation {
 	msg := nfttransfer.NewMsgNftTransfer(class, id, owner.Addr.String(), receiver, dst, relay, "")
@@ -527,7 +540,6 @@ func (s *Sim) SendMT(c *world.Chain, owner *world.Account, class, id string, amt
 	}
 	return s.record(st)
 }
-
 
 // opNFTRaid is an adversarial heuristic: send a voucher held on chain A to a chain whose escrow
 // currently holds a *native* NFT with the same base class name and token id, preferring the
